@@ -21,7 +21,7 @@ RULE = ("all labelled rooted forests on n <= 4 (quick) / n <= 5 (thorough, <= 72
         "constant-argument acceptance for every (object type, required type) pair, forall-precondition truth and "
         "forall-effect range for every quantified type. non-trivial = a forest of depth >= 2")
 ASSUMPTIONS = ["type names are plain lower-case identifiers; 'either' types are C01's out-of-fragment business",
-               "forall use sites are run in a domain without constants (the property speaks of the problem's objects)"]
+               "forall use sites are run in a domain without constants (ranging over constants is exercised by C02 / C03)"]
 CASE_TIMEOUT = 120
 NAMES = ["a", "b", "c", "d", "e"]
 
